@@ -1099,11 +1099,14 @@ class DFA:
 
     def chain_actions_at_end(self, actions: Iterable["Action"]):
         actions = list(actions)
-        self.chain_actions_into(actions, [x for x in self.accepting_states if x is not self.starting_state])
-        if actions and self.starting_state in self.accepting_states:
-            # Nothing points at the starting state yet -- whatever comes before this machine will -- so the path that ends right where it
-            # starts (a skipped optional) has no transition to put them on: they are performed when the next byte shows which path it was.
-            self.append_action_step(actions, [self.starting_state])
+        # Nothing points at the starting state yet -- whatever comes before this machine will -- so the path that ends right where it
+        # starts (a skipped optional) has no transition to put them on: they are performed when the next byte shows which path it was.
+        # The target of an action -- the end of a loop that a break under an if leaves for -- is entered without taking a transition at all.
+        jumped_to = set(target for transition in self.all_transitions() for action in transition.actions for sub in action.all_subactions() for target in sub.get_target_override_targets())
+        entered_otherwise = [x for x in self.accepting_states if x is self.starting_state or x in jumped_to]
+        self.chain_actions_into(actions, [x for x in self.accepting_states if x not in entered_otherwise])
+        if actions and entered_otherwise:
+            self.append_action_step(actions, entered_otherwise)
 
 # =============
 # DEBUG STORAGE
